@@ -156,8 +156,21 @@ pub fn run(ctx: &RunCtx, caps: bool) -> Outcome {
                 }
             }
         }
+        {
+            // open-ended counted repeats over a back-reference (analysed minimum size 0, but it cannot match empty)
+            use crate::ast::{Node::*, Q};
+            let bx = |n: crate::ast::Node| Box::new(n);
+            for first in [Group(bx(Lit('a'))), Group(bx(Alt(vec![Lit('a'), Lit('b')]))), Group(bx(Repeat(bx(Lit('a')), 1, Some(2), Q::Greedy)))] {
+                for (lo, q) in [(2u32, Q::Greedy), (2, Q::Lazy), (3, Q::Greedy), (2, Q::Poss)] {
+                    for tail in [Empty, Lit('b'), Assert(crate::ast::A::EndText)] {
+                        f1.push(super::api::flatten(Concat(vec![first.clone(), Repeat(bx(Backref(1)), lo, None, q), tail.clone()])));
+                    }
+                }
+            }
+        }
         let f1 = gen::dedup_by_print(f1);
-        let f1texts = gen::texts(&['a', 'b', 'x'], 4);
+        let mut f1texts = gen::texts(&['a', 'b', 'x'], 4);
+        f1texts.extend(["aaaaa", "aaaaab", "aaaaaa", "bbbb", "aaaab"].iter().map(|s| s.to_string()));
         if !stage(ctx, &mut o, &fp, "F1 class, VM-interpreted loops, undisputed cases", &f1, &f1texts) {
             return o;
         }
